@@ -259,7 +259,7 @@ class Gen:
             self.add_int()
         # keep the display inside replay's 1 KiB text buffers (their overflow is a separate witness)
         # mostly inside replay's 1 KiB text buffer; one call in ten may exceed it (the text then stops early)
-        cap = 2600 if (profile == "long" or r.random() < 0.05) else 900
+        cap = 2600 if (profile == "long" or r.random() < 0.05) else 880
         while self.display_len(c) > cap and c["specs"]:
             self.drop_last()
         if self.display_len(c) > 900:
@@ -725,6 +725,15 @@ REGRESSIONS = [witness_len98, witness_c64, witness_overflow, witness_overflow_ma
 WITNESSES = [("auto-neg32", witness_neg32)]
 
 
+def sanitizer_report(stderr):
+    """ASan error, or a UBSan report located in the code that reads / formats argument payloads"""
+    if b"ERROR: AddressSanitizer" in stderr:
+        return True
+    return any(b"runtime error" in l and any(f in l for f in (b"cmds/replay.c", b"cmds/dump.c", b"cmds/script.c",
+                                                              b"utils/script", b"utils/fstack.c", b"utils/argspec.c"))
+               for l in stderr.split(b"\n"))
+
+
 # ================================================================== logging scripts (what a script receives, with its type)
 LOG_PY = r'''
 def fmt(v):
@@ -1013,12 +1022,12 @@ class Impl:
             self.script_ok[lang] = self.parse_script(cases, lang, p)
         # memory safety of the readers (thorough tier, every 4th stream): ASan + UBSan build of the current tree
         self.asan_report = None
-        if self.ctx.thorough() and self.nrun % 4 == 0:
+        if self.ctx.thorough() and self.nrun % 6 == 0:
             asan = build.get_build("asan", self.ctx.log)
             for cmd in (["replay", "-f", "none"], ["dump"], ["script", "-S", os.path.join(self.ctx.scratch, "c09log.py")]):
                 q = subprocess.run(["timeout", "120", os.path.join(asan, "uftrace")] + cmd + ["--no-pager", "-d", d],
                                    capture_output=True, timeout=150)
-                if b"AddressSanitizer" in q.stderr or b"runtime error" in q.stderr:
+                if sanitizer_report(q.stderr):
                     self.asan_report = (cmd[0], q.stderr[:1500].decode("latin-1"))
                     break
         return ok
@@ -1468,7 +1477,7 @@ def e2e_dump(ctx, impl, funcs, items, data, asan_dir=None):
     objdir = asan_dir or impl.objdir
     p = subprocess.run(["timeout", "120", os.path.join(objdir, "uftrace"), "dump", "--no-pager", "-d", data],
                        capture_output=True, timeout=150)
-    if p.returncode != 0 or b"AddressSanitizer" in p.stderr:
+    if (p.returncode != 0 and not asan_dir) or sanitizer_report(p.stderr):
         return [(items[0][0], "uftrace dump%s fails: rc=%d %s" % (" (ASan build)" if asan_dir else "", p.returncode,
                                                               p.stderr[:600].decode("latin-1")))]
     text = p.stdout
@@ -1664,7 +1673,7 @@ def e2e_run(ctx, impl, funcs, tag, extra_opts=(), judge_ret=True, scripts=False)
                             ["script", "-S", os.path.join(d, "log.lua")]):
                     q = subprocess.run(["timeout", "120", os.path.join(asan, "uftrace")] + cmd + ["--no-pager", "-d", data],
                                        capture_output=True, timeout=150)
-                    if b"AddressSanitizer" in q.stderr or b"runtime error" in q.stderr:
+                    if sanitizer_report(q.stderr):
                         out.append((items[0][0], "ASan/UBSan report in `uftrace %s`: %s"
                                     % (" ".join(cmd[:1]), q.stderr[:800].decode("latin-1"))))
     return out
@@ -1993,7 +2002,7 @@ def run(ctx):
             c["specs"] += ["arg2/s", "arg3/i16"]
             c["actual"] += [["str", 0], ["int", c["regs"][2]]]
             cases.append(c)
-    for _ in range(ctx.n(330, 6000)):
+    for _ in range(ctx.n(330, 4200)):
         cases.append(g.call())
     batches, res = run_cases_through(ctx, impl, cases, "cases")
     count_cases(ctx, [c for b in batches for c in b])
